@@ -263,7 +263,15 @@ def check(pid, tier, seed, replay=None):
     samples = []
     model_disagreements = 0
     prop_failures = 0
-    streams = spec["streams"](tier, seed) if replay is None else [(["replayfile", replay], None)]
+    streams = spec["streams"](tier, seed)
+    if replay is not None:
+        streams = [(["replayfile", os.path.abspath(replay)], streams[0][1])]
+    else:
+        # minimised past failures and pinned instances of known findings run first
+        cdir = os.path.join(ROOT, "corpus", pid)
+        if os.path.isdir(cdir):
+            pinned = [(["replayfile", os.path.join(cdir, f)], streams[0][1]) for f in sorted(os.listdir(cdir))]
+            streams = pinned + list(streams)
     for idx, (hargs, classify) in enumerate(streams):
         res, cases_path = run_stream(pid, idx, hargs)
         if res is None:
@@ -276,8 +284,17 @@ def check(pid, tier, seed, replay=None):
                             " ".join(hargs) + "\n" + last))
             continue
         classify0 = classify
+        defs = {}
+
+        def with_def(l):
+            t = l.split()
+            if t and t[0] == "tok" and len(t) > 2 and t[2] in defs:
+                return defs[t[2]] + "\n" + l
+            return l
         for (line, impl, mobs, extra) in res:
             classify = classify0
+            if line.startswith("def "):
+                defs[line.split()[1]] = line
             if line.startswith("def "):
                 on_def = getattr(classify, "on_def", None)
                 if on_def is None:
@@ -299,14 +316,14 @@ def check(pid, tier, seed, replay=None):
             pf = info.get("prop_fail")
             if pf:
                 prop_failures += 1
-                failing.append((pf, info.get("why", pf), f"{line}\nMODEL {mobs}\nP {extra}"))
+                failing.append((pf, info.get("why", pf), f"{with_def(line)}\nMODEL {mobs}\nP {extra}"))
             elif info.get("corr_fail"):
                 model_disagreements += 1
-                broken.append(("corr", info["corr_fail"], f"{line[:3000]}\nMODEL {mobs[:800]}\nP {extra}"))
+                broken.append(("corr", info["corr_fail"], f"{with_def(line)}\nMODEL {mobs[:800]}\nP {extra}"))
             elif impl != mobs and not line.startswith("def "):
                 model_disagreements += 1
                 broken.append(("corr", "model and implementation disagree",
-                               f"{line}\nMODEL {mobs}\nP {extra}"))
+                               f"{with_def(line)}\nMODEL {mobs}\nP {extra}"))
     if not samples and evaluations:
         samples.append("(no non-trivial sample)")
 
